@@ -502,15 +502,11 @@ Section MemoProofs.
 End MemoProofs.
 
 (* level 1: (vf.hash(), (on_demand,)) -> class *)
-Definition keq1 (a b : hval * bool) : bool := hval_eqb (fst a) (fst b) && Bool.eqb (snd a) (snd b).
-
 Lemma keq1_spec a b : keq1 a b = true <-> a = b.
 Proof.
   destruct a as [h o], b as [h' o']. unfold keq1; simpl.
   rewrite andb_true_iff, hval_eqb_eq, Bool.eqb_true_iff. split; [intros [-> ->]; reflexivity|intros E; injection E; auto].
 Qed.
-
-Definition keyof1 (T : table) (r : form * bool) : hval * bool := (form_key T (fst r), snd r).
 
 Lemma cache_returns_requested_l :
   forall (T : table) (C : Type) (gen : bool -> form -> C) (seed : list ((form * bool) * C)) (reqs : list (form * bool)),
